@@ -31,9 +31,11 @@ def parseParams? (ts : List String) : Option (LcgParams × UInt64) :=
     else none
   | _ => none
 
-def showRun (D : Discipline) (hist : List UInt64) (rs : List (List UInt64)) : String :=
-  if D.isShared then "U " ++ summ (sortWords hist)
-  else "T " ++ ";".intercalate (rs.map summ)
+def showRun (D : Discipline) (p : LcgParams) (hist : List UInt64) (rs : List (List UInt64)) : String :=
+  -- `A = C = 0`: the extractor could not read the generator's arithmetic; only the numbers of draws are predicted
+  let blind := p.a = 0 ∧ p.c = 0
+  if D.isShared then "U " ++ (if blind then toString hist.length else summ (sortWords hist))
+  else "T " ++ ";".intercalate (rs.map (fun r => if blind then toString r.length else summ r))
 
 /-- The property's statement evaluated on one finished run of the model
     (`hist` = `history st`, `rs[i]` = `results st i`). -/
@@ -55,14 +57,14 @@ def runLine (D : Discipline) (p : LcgParams) (seed : UInt64) (progs : List Nat) 
   let st := exec D g (init seed progs) sched
   let hist := history st
   let rs := (List.range progs.length).map (results st)
-  answer3 (showRun D hist rs) (viewRun D g seed progs hist rs) "ok"
+  answer3 (showRun D p hist rs) (viewRun D g seed progs hist rs) "ok"
 
 def runFine (D : Discipline) (p : LcgParams) (seed : UInt64) (progs : List Nat) (sched : List Nat) : String :=
   let g := lcgGen p
   let st := (fexec D g (finit seed progs) sched).abs
   let hist := history st
   let rs := (List.range progs.length).map (results st)
-  answer3 (showRun D hist rs) (viewRun D g seed progs hist rs) "ok"
+  answer3 (showRun D p hist rs) (viewRun D g seed progs hist rs) "ok"
 
 def showStream (xs : List UInt64) : String := if xs.length ≤ 32 then showListWith toString xs else summ xs
 
